@@ -31,6 +31,8 @@ CONSTANTS MaxN,        \* plain graphs have 0..MaxN nodes
 \* output some node may consume), input names and the keys of a serialised node
 Schemes == IF MaxRichN >= 3 THEN << <<"a", "b", "0">>, <<"0", "a", "b">>, <<"b", "0", "a">>, <<"y", "inputs", "x">> >>
            ELSE << <<"a", "b", "0">>, <<"0", "a", "b">>, <<"y", "inputs", "x">> >>
+\* the last scheme (input names / keys) is applied to graphs of up to MaxRichN nodes only
+SchemesFor(n) == IF n <= MaxRichN THEN DOMAIN Schemes ELSE (DOMAIN Schemes) \ {Len(Schemes)}
 Name(sch, i) == IF sch = 0 THEN "n" \o ToString(i) ELSE Schemes[sch][i]
 INames == {"x", "y"}
 
@@ -64,24 +66,34 @@ RECURSIVE InsUpTo(_, _)
 InsUpTo(outs, j) == IF j = 0 THEN {<<>>}
                     ELSE {Append(s, f) : s \in InsUpTo(outs, j - 1), f \in [INames -> Srcs(outs, j) \cup {NoSrc}]}
 Offsets(n) == IF n = 0 THEN {0} ELSE IF n <= MaxPayN THEN 0..(NP - 1) ELSE IF n <= MaxRichN THEN {0, 5} ELSE {0}
-\* <<naming scheme, payload rotation>>: payload rotations under scheme 0, every other scheme with rotation 0
-Variants(n) == {<<0, off>> : off \in Offsets(n)} \cup (IF n = 0 THEN {} ELSE {<<sch, 0>> : sch \in DOMAIN Schemes})
-PlainOf(n) == UNION {{[kind |-> "plain", n |-> n, outs |-> outs, ins |-> ins, off |-> v[2], sch |-> v[1]]
-                        : ins \in InsUpTo(outs, n), v \in Variants(n)} : outs \in [1..n -> OutKinds(n)]}
+\* <<naming scheme, payload rotation, sink list>>: payload rotations under scheme 0, every other scheme with rotation 0.
+\* Sink list handed to Graph(...): "terminals" = exactly the nodes nobody consumes; "all" = every node, i.e. the list also
+\* names consumed nodes (as hand-built graphs and unions of graphs do) - same graph, other representation; only generated
+\* when the graph has an edge (otherwise the two lists coincide)
+HasEdge(ins) == \E j \in DOMAIN ins : \E x \in INames : ins[j][x] # NoSrc
+Variants(n, ins) == {<<0, off, "terminals">> : off \in Offsets(n)}
+               \cup (IF n = 0 THEN {} ELSE {<<sch, 0, "terminals">> : sch \in SchemesFor(n)})
+               \cup (IF HasEdge(ins) THEN {<<0, 0, "all">>} ELSE {})
+PlainOf(n) == UNION {UNION {{[kind |-> "plain", n |-> n, outs |-> outs, ins |-> ins, off |-> v[2], sch |-> v[1], sinks |-> v[3]]
+                               : v \in Variants(n, ins)} : ins \in InsUpTo(outs, n)} : outs \in [1..n -> OutKinds(n)]}
 Plain == UNION {PlainOf(n) : n \in 0..MaxN}
 
 RECURSIVE SeqsUpTo(_, _)
 SeqsUpTo(S, k) == IF k = 0 THEN {<<>>} ELSE SeqsUpTo(S, k - 1) \cup {Append(s, x) : s \in SeqsUpTo(S, k - 1), x \in S}
 FluentOps == {"map", "reduce", "add_self", "scale"}
-Fluent == {[kind |-> "fluent", n |-> n, yields |-> y, ops |-> ops] : n \in 1..3, y \in {0, 2}, ops \in {o \in SeqsUpTo(FluentOps, MaxOps) : Cardinality({i \in DOMAIN o : o[i] = "reduce"}) <= 1}}   \* "reduce" consumes the only dimension
+\* union: the graph is Cascade.from_actions([sources, final action]) - the union of an action with one of its ancestors,
+\* whose sink list therefore also names consumed nodes
+FluentAll == {[kind |-> "fluent", n |-> n, yields |-> y, ops |-> ops, union |-> u] : u \in BOOLEAN, n \in 1..3, y \in {0, 2},
+             ops \in {o \in SeqsUpTo(FluentOps, MaxOps) : Cardinality({i \in DOMAIN o : o[i] = "reduce"}) <= 1}}   \* "reduce" consumes the only dimension
 
+Fluent == {c \in FluentAll : c.union => c.ops # <<>>}
 \* the domain is Plain followed by Fluent (two record shapes, kept apart)
 
 NodeJson(c, j) == [name |-> Name(c.sch, j), outs |-> c.outs[j],
                    inputs |-> SetToSeq({<<x, Name(c.sch, c.ins[j][x][1]), c.ins[j][x][2]>> : x \in {y \in INames : c.ins[j][y] # NoSrc}}),
                    payload |-> PayloadOf(c.off, j).py, jsonok |-> PayloadOf(c.off, j).json]
-CaseJson(c) == IF c.kind = "plain" THEN [kind |-> "plain", nodes |-> [j \in 1..c.n |-> NodeJson(c, j)]]
-               ELSE [kind |-> "fluent", n |-> c.n, yields |-> c.yields, ops |-> c.ops]
+CaseJson(c) == IF c.kind = "plain" THEN [kind |-> "plain", sinks |-> c.sinks, nodes |-> [j \in 1..c.n |-> NodeJson(c, j)]]
+               ELSE [kind |-> "fluent", n |-> c.n, yields |-> c.yields, ops |-> c.ops, union |-> c.union]
 
 \* ---------------------------------------------------------------- post-condition
 SetOf(s) == {s[i] : i \in DOMAIN s}
@@ -113,7 +125,7 @@ Post(cj, res) ==
       want == IF cj.kind = "plain" THEN Described(cj) ELSE orig
       jsonok == cj.kind = "plain" /\ \A nd \in SetOf(cj.nodes) : nd.jsonok
   IN (IF cj.kind = "plain" /\ orig # want THEN {"graph_built_is_not_the_case"} ELSE {})
-\cup (IF cj.kind = "fluent" /\ Cardinality(orig) < cj.n THEN {"fluent_graph_too_small"} ELSE {})
+\cup (IF cj.kind = "fluent" /\ Cardinality(orig) < (IF cj.union THEN 1 ELSE cj.n) THEN {"fluent_graph_too_small"} ELSE {})   \* a union merges equal sources
 \cup Trip("dict", want, res.dict)
 \cup Trip("file", want, res.file)
 \cup (IF jsonok THEN Trip("json", want, res.json) ELSE {})
